@@ -189,10 +189,6 @@ def filterRows (rows : List Row) (preds : List Expr) : List Row :=
 
 def nullRow (uids : List Uid) : Row := uids.map (fun u => (u, Val.null))
 
-/-- the name of a column after `rename(m)` -/
-def renameName (m : List (String × String)) (n : String) : String :=
-  match m.find? (·.1 == n) with | some (_, nn) => nn | none => n
-
 /-- a row of a table with visible columns `tvis`, re-keyed to the left table's visible columns `lvis`
     *by name* (union) -/
 def projTo (lvis tvis : List (String × Uid)) (row : Row) : Row :=
